@@ -60,6 +60,8 @@ def parse_type(s):
     if s.startswith("Dict[") and s.endswith("]"):
         t = parse_type("Tuple[" + s[5:-1] + "]")
         return ("Dict", t[1][0], t[1][1])
+    if s in ("Time", "Dur"):
+        return "Int"    # datetime / timedelta in microseconds (the distinction only matters to the validation harness)
     if s in ("Int", "Rat", "Bool", "Val", "Unit", "Nat", "Obj"):
         return s
     raise ValueError(f"unknown type {s}")
@@ -1254,3 +1256,90 @@ def translate_spec(spec, src_root):
         msg = f"{type(e).__name__}: {e}"
         return (header + f"/-- translation failed: {msg.replace('-/', '- /')} -/\n"
                 f"def {spec['lean']}.untranslatable : Unit := ()\n\nend Finam.Tr\n"), msg
+
+
+# ---------------------------------------------------------------------------------------------
+# driver for the translation validation (harness/trvalidate.py)
+# ---------------------------------------------------------------------------------------------
+def arg_order(spec, fn):
+    """the parameters of the translated definition, in order: ("field" | "param" | "extra", name, type string)"""
+    out = [("field", k, v) for k, v in spec.get("fields", {}).items()]
+    for a in fn.args.args:
+        if a.arg == "self" or a.arg in spec.get("ignore_params", []):
+            continue
+        out.append(("param", a.arg, spec["params"][a.arg]))
+    out += [("extra", k, v) for k, v in spec.get("extra_params", {}).items()]
+    return out
+
+
+DRIVER_PRELUDE = """/- GENERATED by harness/py2lean.py — do not edit.  Line-protocol driver that evaluates the translated definitions
+   (translation validation, harness/trvalidate.py): {"fn": name, "args": [...]} -> {"ok": value} | {"err": class}. -/
+import Lean.Data.Json
+import FinamModel.DriverUtil
+@@IMPORTS@@
+namespace Finam.Driver.TrV
+open Lean Finam Finam.Driver
+
+class FromJ (α : Type) where
+  fromJ : Json → α
+class ToJ (α : Type) where
+  toJ : α → Json
+export FromJ (fromJ)
+export ToJ (toJ)
+
+instance : FromJ Int := ⟨asInt⟩
+instance : FromJ Nat := ⟨asNat⟩
+instance : FromJ Bool := ⟨asBool⟩
+instance : FromJ Rat := ⟨asRat⟩
+instance : FromJ Unit := ⟨fun _ => ()⟩
+instance {α} [FromJ α] : FromJ (List α) := ⟨fun j => (arr j).map fromJ⟩
+instance {α} [FromJ α] : FromJ (Option α) := ⟨fun j => if j.isNull then none else some (fromJ j)⟩
+instance {α β} [FromJ α] [FromJ β] : FromJ (α × β) :=
+  ⟨fun j => match arr j with | [a, b] => (fromJ a, fromJ b) | _ => (fromJ Json.null, fromJ Json.null)⟩
+
+instance : ToJ Int := ⟨jInt⟩
+instance : ToJ Nat := ⟨jNat⟩
+instance : ToJ Bool := ⟨Json.bool⟩
+instance : ToJ Rat := ⟨jRat⟩
+instance : ToJ Unit := ⟨fun _ => Json.null⟩
+instance {α} [ToJ α] : ToJ (List α) := ⟨fun l => Json.arr (l.map toJ).toArray⟩
+instance {α} [ToJ α] : ToJ (Option α) := ⟨fun o => match o with | some x => toJ x | none => Json.null⟩
+instance {α β} [ToJ α] [ToJ β] : ToJ (α × β) := ⟨fun p => Json.arr #[toJ p.1, toJ p.2]⟩
+instance {α} [ToJ α] : ToJ (Except Err α) :=
+  ⟨fun r => match r with | .ok v => Json.mkObj [("ok", toJ v)] | .error e => Json.mkObj [("err", Json.str e.toString)]⟩
+
+def argAt (args : List Json) (i : Nat) : Json := args.getD i Json.null
+
+def handle (j : Json) : Json :=
+  let args := getArr j "args"
+  match getStr j "fn" with
+@@CASES@@
+  | _ => Json.mkObj [("bad", Json.str "fn")]
+
+def step (line : String) : String :=
+  match Json.parse line with
+  | .error e => (Json.mkObj [("bad", Json.str e)]).compress
+  | .ok j => (handle j).compress
+
+end Finam.Driver.TrV
+"""
+
+
+def driver_source(specs, status, src_root):
+    """lean/FinamModel/DriverTr.lean: one case per translated function that does not read an object graph"""
+    imports, cases = [], []
+    for spec in specs:
+        if spec.get("heap") or "slice" in spec or not status.get(spec["lean"], {}).get("translated"):
+            continue
+        try:
+            tree = ast.parse(open(os.path.join(src_root, "finam", spec["path"])).read())
+            fn = find_function(tree, spec["qual"])
+            order = arg_order(spec, fn)
+        except Exception:  # noqa
+            continue
+        generic = any(uses_val(parse_type(t)) for _k, _n, t in order) or uses_val(parse_type(spec.get("ret", "Unit")))
+        args = " ".join(f"(fromJ (argAt args {i}))" for i in range(len(order)))
+        call = f"Tr.{spec['lean']}" + (" (α := Int)" if generic else "")
+        imports.append(f"import FinamModel.Translated.{spec['lean']}")
+        cases.append(f'  | "{spec["lean"]}" => toJ ({call} {args})')
+    return (DRIVER_PRELUDE.replace("@@IMPORTS@@", "\n".join(imports)).replace("@@CASES@@", "\n".join(cases)))
